@@ -654,7 +654,11 @@ func (w *World) stepGroup(a groupArgs, r *Rand) string {
 		case "other-chain":
 			chain = "other-chain-9"
 		case "other-epoch":
-			epoch += 1 + uint64(r.Intn(3))
+			if epoch > 0 && r.Chance(0.6) {
+				epoch = uint64(r.Intn(int(epoch))) // a proof made in an earlier epoch (epoch 0 included)
+			} else {
+				epoch += 1 + uint64(r.Intn(3))
+			}
 		case "other-height":
 			height += 1 + uint64(r.Intn(5))
 		case "other-proposer":
@@ -696,7 +700,13 @@ func (w *World) stepGroup(a groupArgs, r *Rand) string {
 		hdoc := relayertypes.VoteSignDoc(hreq.MethodName(), chainID, cv.Proposer.Addr(), 0, cv.Rel.Epoch, hreq.SignDoc())
 		hsig, _ := ethcrypto.Sign(hdoc, mustECDSA(m.Tx))
 		genuine := bytes.Equal(msg.VoterBlsKey, m.Vote.Pub) && bytes.Equal(msg.VoterTxKey, m.Tx.Pub) && len(hsig) >= 64 && bytes.Equal(msg.VoterTxKeyProof, hsig[:64]) && bytes.Equal(msg.VoterBlsKeyProof, m.Vote.Sign(hdoc))
-		w.rel().RegTruth[txKeyOf(msg)] = &regTruth{Member: m.Addr(), Genuine: genuine, Variant: a.Variant}
+		// own: both keys and both proofs are the candidate's own, made over the document described by
+		// (chain, epoch, proposer, height); whether that document is the right one is judged when the
+		// transaction executes, against the state it executes on
+		odoc := relayertypes.VoteSignDoc(reqMsg.MethodName(), chain, proposer, 0, epoch, reqMsg.SignDoc())
+		osig, _ := ethcrypto.Sign(odoc, mustECDSA(m.Tx))
+		own := bytes.Equal(msg.VoterBlsKey, m.Vote.Pub) && bytes.Equal(msg.VoterTxKey, m.Tx.Pub) && len(osig) >= 64 && bytes.Equal(msg.VoterTxKeyProof, osig[:64]) && bytes.Equal(msg.VoterBlsKeyProof, m.Vote.Sign(odoc))
+		w.rel().RegTruth[txKeyOf(msg)] = &regTruth{Member: m.Addr(), Genuine: genuine, Variant: a.Variant, Own: own, Chain: chain, Epoch: epoch, Proposer: proposer, Height: height, MsgProposer: msg.Proposer, KeyHash: sha(msg.VoterBlsKey)}
 		return w.sendMsgs([]sdk.Msg{msg}, nil, "register/"+a.Variant, honest, nil, TxOpts{})
 	}
 	return "skip:unknown-action"
@@ -704,8 +714,22 @@ func (w *World) stepGroup(a groupArgs, r *Rand) string {
 
 type regTruth struct {
 	Member  string
-	Genuine bool
+	Genuine bool // genuine for the state it was made on
 	Variant string
+	// what the proofs were made over
+	Own         bool
+	Chain       string
+	Epoch       uint64
+	Proposer    string
+	Height      uint64
+	MsgProposer string
+	KeyHash     []byte // hash of the BLS key presented
+}
+
+// genuineAt: the registration is what the honest procedure produces for the state it executes on.
+func (t *regTruth) genuineAt(rel *relayertypes.Relayer, rec *relayertypes.Voter) bool {
+	return t.Own && t.Chain == chainID && rel != nil && t.Epoch == rel.Epoch && t.Proposer == rel.Proposer && t.MsgProposer == rel.Proposer &&
+		rec != nil && rec.Height == t.Height && bytes.Equal(rec.VoteKey, t.KeyHash)
 }
 
 func txKeyOf(m *relayertypes.MsgNewVoterRequest) string {
